@@ -205,9 +205,17 @@ func (v *Version) String() string {
 
 // Compare compares this version with another Alpine version
 func (v *Version) Compare(other *Version) int {
-	// Handle invalid versions (no numeric components) - use string comparison
+	// Handle invalid versions (no numeric components) - use string comparison.
+	// Well-formed versions sort before malformed ones so that the numeric order of
+	// well-formed versions and the string order of malformed ones never contradict.
 	if v.numeric == nil || other.numeric == nil {
-		return strings.Compare(v.original, other.original)
+		if v.numeric != nil {
+			return -1
+		}
+		if other.numeric != nil {
+			return 1
+		}
+		return strings.Compare(strings.TrimSpace(v.original), strings.TrimSpace(other.original))
 	}
 
 	// 1. Compare numeric components (leading zeros are ignored - use actual numeric values)
